@@ -114,7 +114,39 @@ def correlated_noise(shape, cov_pix, rng, sigma=1.0):
     return field * sigma          # corr[0,0] = 1 so the variance is 1
 
 
-def write_fits(path, img, hdr, dtype=np.float64):
+# Representations of the SAME image: header with a CD matrix instead of CDELT, one or two degenerate trailing axes (frequency,
+# Stokes), pixel values stored scaled (BSCALE/BZERO; powers of two so that the physical values are reproduced to an ulp).
+# None = the plain 2-D CDELT float image.
+from hypothesis import strategies as _st
+rep_strategy = _st.sampled_from([
+    None, None, None, None, {"cd": True}, {"extra_axes": 1}, {"extra_axes": 2}, {"bscale": [2.0, 0.0]}, {"bscale": [0.5, 3.0]},
+    {"cd": True, "extra_axes": 2}, {"cd": True, "extra_axes": 1, "bscale": [-4.0, 1.0]}])
+rep_strategy_exact = _st.sampled_from([None, None, None, {"cd": True}, {"extra_axes": 1}, {"extra_axes": 2}, {"cd": True, "extra_axes": 2}])
+
+
+def write_fits(path, img, hdr, dtype=np.float64, rep=None):
     h = hdr.copy()
+    rep = rep or {}
     h["BITPIX"] = -64 if dtype == np.float64 else -32
-    fits.PrimaryHDU(np.asarray(img, dtype=dtype), header=h).writeto(path, overwrite=True)
+    data = np.asarray(img, dtype=np.float64)
+    if rep.get("cd") and "CDELT1" in h:
+        h["CD1_1"], h["CD1_2"], h["CD2_1"], h["CD2_2"] = h["CDELT1"], 0.0, 0.0, h["CDELT2"]
+        del h["CDELT1"]
+        del h["CDELT2"]
+    scal = rep.get("bscale")
+    if scal:
+        data = (data - scal[1]) / scal[0]
+    arr = np.asarray(data, dtype=dtype)
+    extra = int(rep.get("extra_axes", 0))
+    for _ in range(extra):
+        arr = arr[None]
+    hdu = fits.PrimaryHDU(arr, header=h)
+    for k, (ct, cv) in enumerate([("FREQ", 1.4e9), ("STOKES", 1.0)][:extra]):
+        n = 3 + k
+        hdu.header["CTYPE%d" % n], hdu.header["CRVAL%d" % n] = ct, cv
+        hdu.header["CRPIX%d" % n], hdu.header["CDELT%d" % n] = 1.0, 1.0
+    hdu.writeto(path, overwrite=True)
+    if scal:
+        with fits.open(path, mode="update", do_not_scale_image_data=True) as hl:
+            hl[0].header["BSCALE"] = scal[0]
+            hl[0].header["BZERO"] = scal[1]
